@@ -64,6 +64,12 @@ def t1t_big():
         "filler": st.sampled_from([0x00, 0xFF, 0x03])})
 
 
+def t4_len():
+    """lengths around the single-command limit NLEN+L <= MLc"""
+    return st.one_of(c02_len(), st.tuples(st.just("mlc"),
+                                          st.integers(-6, 2)))
+
+
 def t4t_desc():
     def fix(d):
         nl = 4 if d["ver"] >> 4 == 3 else 2
@@ -73,10 +79,11 @@ def t4t_desc():
     return tc.t4t_desc().map(fix)
 
 
-def case_strategy(desc, tier):
+def case_strategy(desc, tier, lens=None):
+    lens = lens or c02_len()
     return st.fixed_dictionaries({
-        "tag": desc, "old": c02_len(), "old_seed": st.integers(0, 255),
-        "new": c02_len(), "new_seed": st.integers(0, 255),
+        "tag": desc, "old": lens, "old_seed": st.integers(0, 255),
+        "new": lens, "new_seed": st.integers(0, 255),
         "cuts": st.just("all" if tier == "thorough" else "edges")})
 
 
@@ -138,7 +145,11 @@ def run(case, ctx):
         cap = ndef.capacity
     except Exception as e:
         raise unexpected(e, "setup-raises")
-    L = min(tc.resolve_len(case["new"], cap), cap)
+    if case["new"][0] == "mlc":
+        # relative to the effective command data limit of short APDUs
+        L = max(0, min(min(desc.get("mlc", 255), 255) + case["new"][1], cap))
+    else:
+        L = min(tc.resolve_len(case["new"], cap), cap)
     new = tc.message(L, case["new_seed"] ^ 0x80)
     if kind.startswith("t4t") and desc["ver"] == 0x30 and \
             desc["fsize"] > 0xFFFF:
@@ -227,8 +238,9 @@ def _prefix(a, b):
     return i
 
 
-def _leg(name, desc, quick, thorough):
-    return Leg(name, run=run, gen=lambda tier: case_strategy(desc, tier),
+def _leg(name, desc, quick, thorough, lens=None):
+    return Leg(name, run=run,
+               gen=lambda tier: case_strategy(desc, tier, lens),
                quick=quick, thorough=thorough, shards_quick=4,
                shards_thorough=16, nt_floor=0.3,
                rule="(%s layout, old, new) triples biased to unaligned NDEF "
@@ -245,5 +257,5 @@ LEGS = [
     _leg("t1t", st.one_of(t1t_big(), t1t_big(), tc.t1t_desc()), 300, 4000),
     _leg("t3t", tc.t3t_desc("t3t"), 300, 4000),
     _leg("t3e", tc.t3t_desc("t3e"), 200, 3000),
-    _leg("t4t", t4t_desc(), 300, 4000),
+    _leg("t4t", t4t_desc(), 300, 4000, t4_len()),
 ]
